@@ -112,6 +112,14 @@ func rowsAlong(t tensor.Tensor, axis int) ([][]int64, error) {
 			f = float64(x)
 		case float64:
 			f = x
+		case int64:
+			f = float64(x)
+		case int32:
+			f = float64(x)
+		case bool:
+			if x {
+				f = 1
+			}
 		default:
 			return nil, fmt.Errorf("non-float output %T", v)
 		}
@@ -294,12 +302,35 @@ func (sm *sampleModel) run(samples []map[string][]float32) (map[string][][]int64
 
 // recordBatch: for each sample model, random batches; events Batch (all rows), Single (sample i alone), Perm (a permuted batch).
 func recordBatch(rec *recorder, rng *rand.Rand, trials int, repo string) int {
+	var sms []*sampleModel
 	for _, name := range []string{"mlp", "gru", "ndm", "scaler"} {
 		sm, err := loadSampleModel(repo, name)
 		if err != nil {
 			fmt.Fprintln(os.Stderr, "record batch:", err)
 			return 2
 		}
+		sms = append(sms, sm)
+	}
+	for _, g := range batchSynthModels(rng) {
+		b, err := buildModel(g.m)
+		if err != nil {
+			fmt.Fprintln(os.Stderr, "record batch: generated model", g.name, err)
+			return 2
+		}
+		m, err := gonnx.NewModelFromBytes(b)
+		if err != nil {
+			fmt.Fprintln(os.Stderr, "record batch: generated model", g.name, err)
+			return 2
+		}
+		sm, err := sampleModelFrom(g.name, m)
+		if err != nil {
+			fmt.Fprintln(os.Stderr, "record batch:", err)
+			return 2
+		}
+		sms = append(sms, sm)
+	}
+	for _, sm := range sms {
+		name := sm.name
 		for t := 0; t < trials; t++ {
 			n := 1 + rng.Intn(4)
 			samples := make([]map[string][]float32, n)
